@@ -19,8 +19,11 @@ func genVis(seed uint64, ncases int, out string) {
 	for c := 0; c < ncases; c++ {
 		nss := nsPool[:2+r.Intn(3)]
 		o.Line("case", fmt.Sprint(c), "vis")
-		o.Line(genMesh(r, nss).line()...)
-		svcs := genSvcs(r, nss, hostPool[:3+r.Intn(len(hostPool)-2)], 2+r.Intn(11), false)
+		m := genMesh(r, nss)
+		for _, l := range meshLines(m) {
+			o.Line(l...)
+		}
+		svcs := genSvcs(r, nss, hostPool[:3+r.Intn(len(hostPool)-2)], 2+r.Intn(11), false, m.sev != nil)
 		for _, s := range svcs {
 			o.Line(s.line()...)
 		}
@@ -127,63 +130,92 @@ func execWorld(in, out string) {
 //   documented(svc, ns) and the export set is well formed  ==>  svc in servicesExportedToNamespace(ns)
 // (well formed: "~" only alone, which is what validation enforces).
 
-func (w *world) effectiveExport(s *svcSpec) []string {
-	e := s.exportTo
-	if len(e) == 0 {
-		if w.mesh.nilSvc {
-			e = []string{"*"}
-		} else {
-			e = w.mesh.defSvc
-		}
+// visOf: the visibility class of a service: given directly, or (class "a") resolved from
+// MeshConfig.serviceEntryVisibility as documented: the first policy all of whose matching rules match
+// the labels of the service's namespace decides, otherwise the default; UNSPECIFIED reads as PUBLIC;
+// a rule without a (usable) namespace selector never matches, an empty selector matches everything.
+func (w *world) visOf(s *svcSpec) string {
+	if s.vis != "a" {
+		return s.vis
 	}
-	has := func(x string) bool {
-		for _, y := range e {
-			if y == x {
-				return true
+	norm := func(c string) string {
+		if c == "u" {
+			return "p"
+		}
+		return c
+	}
+	if w.mesh.sev == nil {
+		return "p"
+	}
+	lbl := w.mesh.nsLabels[s.ns]
+	for _, p := range w.mesh.sev.policies {
+		all := true
+		for _, r := range p.rules {
+			if r.kind != "s" {
+				all = false
+				continue
 			}
-		}
-		return false
-	}
-	if len(dedupSorted(e)) == 1 && has("~") {
-		return e
-	}
-	if w.mesh.apply {
-		switch s.vis {
-		case "n":
-			if has("*") || has(".") || has(s.ns) {
-				return []string{"."}
-			}
-			return []string{"~"}
-		case "x":
-			return []string{"~"}
-		}
-	}
-	return e
-}
-
-func (w *world) documentedVisible(s *svcSpec, ns string) bool {
-	for _, e := range w.effectiveExport(s) {
-		if e == "*" || (e == "." && s.ns == ns) || e == ns {
-			return true
-		}
-	}
-	return false
-}
-
-func (w *world) exportWellFormed(s *svcSpec) bool {
-	e := dedupSorted(w.effectiveExport(s))
-	for _, x := range e {
-		if x == "~" && len(e) > 1 {
-			// "*" wins over "~" in every path, so only "~" next to a namespace or "." is ambiguous
-			for _, y := range e {
-				if y == "*" {
-					return true
+			for k, v := range r.labels {
+				if got, ok := lbl[k]; !ok || got != v {
+					all = false
 				}
 			}
+		}
+		if all {
+			return norm(p.vis)
+		}
+	}
+	return norm(w.mesh.sev.dflt)
+}
+
+// declaredExport: the exportTo the service declares, or the mesh default, or "*".
+func (w *world) declaredExport(s *svcSpec) []string {
+	if len(s.exportTo) > 0 {
+		return s.exportTo
+	}
+	if w.mesh.nilSvc {
+		return []string{"*"}
+	}
+	return w.mesh.defSvc
+}
+
+// documentedVisible: the API documentation of exportTo and of serviceEntryVisibility, as two independent
+// conditions: the declared export list reaches ns ("*", "." for the own namespace, or ns itself; "~"
+// reaches nobody), and the visibility cap (when applied to sidecars) allows ns.
+func (w *world) documentedVisible(s *svcSpec, ns string) bool {
+	exports := false
+	for _, e := range w.declaredExport(s) {
+		if e == "*" || (e == "." && s.ns == ns) || (e == ns && ns != "." && ns != "~") {
+			exports = true
+		}
+	}
+	if !exports {
+		return false
+	}
+	if w.mesh.apply {
+		switch w.visOf(s) {
+		case "n":
+			return s.ns == ns
+		case "x":
 			return false
 		}
 	}
 	return true
+}
+
+// exportWellFormed: "~" does not stand next to a namespace or "." (validation rejects that; the two
+// real paths read it differently); a capped service has no such ambiguity.
+func (w *world) exportWellFormed(s *svcSpec) bool {
+	if w.mesh.apply && w.visOf(s) != "p" {
+		return true
+	}
+	e := dedupSorted(w.declaredExport(s))
+	hasNone, hasStar := false, false
+	for _, x := range e {
+		hasNone = hasNone || x == "~"
+		hasStar = hasStar || x == "*"
+	}
+	return !hasNone || hasStar || len(e) == 1
 }
 
 func (w *world) oracleVis(nss []string) string {
@@ -255,7 +287,7 @@ func oracleWorld(stream, in, out string) {
 			continue
 		}
 		if w != nil {
-			if t[0] == "scope" || t[0] == "gw" || t[0] == "xds" || t[0] == "xdsgw" {
+			if t[0] == "scope" || t[0] == "gw" || t[0] == "xds" || t[0] == "xdsgw" || t[0] == "vsgw" || t[0] == "merged" {
 				w.queries = append(w.queries, t)
 			} else {
 				w.apply(t)
